@@ -196,7 +196,7 @@ impl<'a> G<'a> {
         let n = self.u.below(4);
         self.arg_pieces(n);
         // a literal '%' as the last character of the value: the delimiter that follows must still be seen
-        if self.u.coin(1, 8) { self.feat("literal-percent-before-delimiter"); let w = self.pick(&["5%", "x %", "95 %", "%"]); if w == "%" && self.out.ends_with('%') { self.p(" "); } self.p(w); self.tp(); }
+        if self.u.coin(1, 8) { self.feat("literal-percent-before-delimiter"); let w = self.pick(&["5%", "x %", "95 %", "%", "a&", "b &&", "&"]); if self.out.ends_with(['%', '&']) { self.p(" "); } self.p(w); self.tp(); }
     }
     fn arg_pieces(&mut self, n: usize) {
         for _ in 0..n {
@@ -411,6 +411,7 @@ impl<'a> G<'a> {
                 _ => { let w = self.pick(WORDS); self.p(w); }
             }
         }
+        if self.u.coin(1, 10) { self.feat("literal-trigger-char-before-semi"); let w = self.pick(&["5%", "x %", "a&", "b &&", "%", "&"]); if self.out.ends_with(['%', '&']) { self.p(" "); } self.p(w); }
     }
     fn name_expr(&mut self) { match self.u.below(8) { 6 => { self.name_builtin(); if self.u.coin(1, 2) { self.p("_s"); } } 7 => { let v = self.pick(MVARS); self.p(v); self.name_builtin(); } 5 => { self.feat("name-expr-call"); self.p("%"); let m = self.pick(CALLNAMES); self.p(m); self.p("(a)"); if self.u.coin(1, 2) { self.p("_s"); } } 0 | 1 => { let v = self.pick(MVARS); self.p(v); } 2 => { let v = self.pick(MVARS); self.p(v); self.mvar(false); } 3 => { self.mvar(false); } _ => { let v = self.pick(MVARS); self.p(v); self.p("_"); self.p("&i."); self.p("x"); } } }
     fn let_stmt(&mut self) { self.feat("let"); self.pk("%let"); self.rws(); self.name_expr(); self.ows(); self.del_mark("=", "ASSIGN", "MissingExpectedAssign", false); if self.u.coin(1, 6) { self.quote_call(); } else { self.ows(); } self.text_expr(); self.mark(";", MK::Delim("SEMI", false)); }
